@@ -310,7 +310,7 @@ def main():
     tb = None
     import translate
     if pid in translate.ALL_PIDS:
-        ok_m, out_m = build_coq(['theories/Spec.vo', 'theories/Win.vo', 'theories/Unix.vo'])
+        ok_m, out_m = build_coq(['theories/Spec.vo', 'theories/GenSpec.vo', 'theories/Win.vo', 'theories/Unix.vo'])
         tb = translate.run(pid, prop, REPO, rundir, THEORIES)
         tb.pop('generated', None)
         obligations += tb['obligations']
@@ -319,6 +319,7 @@ def main():
             broken.append(('generated-table', b_[0], b_[1]))
 
     # 3. build
+    tphase = time.time()
     try:
         build_driver()
         binary = build_harness('std')
@@ -327,12 +328,16 @@ def main():
         broken.append(('build', 'harness/driver', str(e)[-800:]))
         return finish(pid, prop, tier, seed, t0, evidence_path, obligations, discharged, broken, [], [], {}, notes, assum, tb)
 
+    notes.append(f'phase build {time.time()-tphase:.1f}s (proofs+translator before: {tphase-t0:.1f}s)')
+    tphase = time.time()
     # 4/5. run + compare
     rng = random.Random(seed)
     cases, dist = prop['gen'](tier, rng)
     corpus = props.corpus_cases(pid)
     cases = corpus + cases
     recs = explore(prop, cases, rundir, 'main', binary)
+    notes.append(f'phase main run {time.time()-tphase:.1f}s')
+    tphase = time.time()
     ops = sorted(set(c.split('\t', 1)[0] for c in cases))
     obligations += len(ops)           # one correspondence obligation per operation in scope
     omode = prop.get('oracle', 'driver')
@@ -398,6 +403,8 @@ def main():
             else:
                 discharged += 1
             os.remove(cf); os.remove(of)
+    notes.append(f'phase other builds / long inputs {time.time()-tphase:.1f}s')
+    tphase = time.time()
     # the debug build also runs the main cases when the property is about overflow / panics
     if prop.get('debug_build') and len(cases) <= 400000:
         try:
